@@ -191,10 +191,10 @@ impl Prop for C13 {
       };
       // ---------------- finder ----------------
       let got = canon_aggs(&v);
-      if got != want {
+      if !value_close(&got, &want) {
         let obs = json!({"variant": name, "limit": r["limit"], "sort": r["sort"], "cursor": r["cursor"], "base": want, "variant_result": got});
         let field_sort = !plan_json(&r["sort"]).as_array().map(|a| a.iter().any(|p| p["f"] == "score")).unwrap_or(false);
-        if name != "cursor-page" && field_sort && !has_hook(&r["query"]) && !r["explain"].as_bool().unwrap_or(false) && strip_top_hits_scores(&got) == strip_top_hits_scores(&want) {
+        if name != "cursor-page" && field_sort && !has_hook(&r["query"]) && !r["explain"].as_bool().unwrap_or(false) && value_close(&strip_top_hits_scores(&got), &strip_top_hits_scores(&want)) {
           s.fail("aggs.top-hits-score-under-field-sort", "a top_hits aggregation reports score 0 for its hits when the request sort does not use _score (scores are not computed then), the real score otherwise", case, obs);
         } else if name == "cursor-page" {
           s.fail("aggs.cursor-page", "on page >= 2 of a cursor walk aggregations only count the documents after the cursor (the cursor test sits in the accept step that feeds the collectors)", case, obs);
